@@ -41,6 +41,23 @@ CHECKS = {
         "Graph shape is enumerated by forking; data-dependent worklist behaviour forks on fact comparisons.",
    technique="bounded symbolic execution of go/ssa + SMT (z3/cvc5), native replay of models",
    design="3/C13"),
+ "C14": dict(
+   level="model_checking",
+   text="The real buildDomTree (Lengauer-Tarjan), numberDomTree, Dominates, Idom, Dominees, DomPreorder and DomPostorder are executed on every CFG with 3 and 4 blocks (and 3 blocks + a recover block); "
+        "the queried ordered pair (a,b) is symbolic, so one solver query per graph decides Dominates(a,b) == (every path from the region root to b passes through a) for all pairs; "
+        "idom/dominee/pre/post-order consistency is asserted against the same path-search definition.",
+   note="Graph shapes are enumerated by forking (each fork solver-checked); thorough adds 5 blocks with out-degree <= 2. Precondition assumed: all blocks reachable from entry or recover, "
+        "recover region disjoint. CFGs the builder actually produces (clause b) are not yet covered by an SMT path query.",
+   technique="bounded symbolic execution of go/ssa + SMT (symbolic query pair), native replay of models",
+   design="3/C14"),
+ "C17": dict(
+   level="model_checking",
+   text="Graph level: the real SerializedGraph.Results / colorAndQuieten / color / Merge are executed on every graph with a root and 3 objects (uses arbitrary, owns acyclic), under all node numberings, "
+        "all orders of the merged node list and a repeated merge; asserted: verdict = reachability over uses, quiet = transitively owned by an unused object, exactly-one-verdict partition, "
+        "invariance under renumbering/reordering/repetition, and monotonicity under an added reference from used code.",
+   note="Finite space explored exhaustively within the bound by forking (solver decides feasibility). Outside: construction of the graph from syntax (file/declaration order), the variant merge loop of linter.lint (planned), graphs > 4 objects.",
+   technique="bounded symbolic execution of go/ssa + SMT feasibility, native replay of models",
+   design="3/C17"),
 }
 
 NA = {
